@@ -110,10 +110,9 @@ theorem St.t46_D_registerTask_mem (s : St) (c : Nat) (t : Task) (x : Nat) (h : t
   split <;> omega
 
 /-- `_on_done`: either it sets the flag for the first time (the pending wait becomes the resumption task), or - a second
-    `_done` event of the awaited event - the resumption task is still registered and nothing changes -/
-theorem St.t46_onWaitDone_M (s : St) (w e : Nat) (hst : (s.wait w).started = true)
-    (hfl : (s.wait w).flag = true → (⟨(s.wait w).taskEvent, (s.wait w).task, some (s.wait w).parentGen⟩ : Task) ∈
-      (s.comp (s.rootOf (s.wait w).owner)).tasks) :
+    `_done` event of the awaited event, a stale invocation, or one after the time-out - it does nothing
+    (`if state.flag or state.timed_out: return`) -/
+theorem St.t46_onWaitDone_M (s : St) (w e : Nat) (hst : (s.wait w).started = true) :
     St.T46M s (s.onWaitDone w e).2 := by
   have hw := St.t46_wait_started_lt s w hst
   unfold St.onWaitDone
@@ -121,7 +120,9 @@ theorem St.t46_onWaitDone_M (s : St) (w e : Nat) (hst : (s.wait w).started = tru
   split
   · rename_i hc
     have hto : (s.wait w).timedOut = false := by
-      simp only [Bool.and_eq_true, Bool.not_eq_true'] at hc; exact hc.1
+      simp only [Bool.and_eq_true, Bool.not_eq_true'] at hc; exact hc.1.2
+    have hfl0 : (s.wait w).flag = false := by
+      simp only [Bool.and_eq_true, Bool.not_eq_true'] at hc; exact hc.1.1
     have hS1 : St.T46M s ((s.modWait w fun x => { x with flag := true }).registerTask (s.wait w).owner
         ⟨(s.wait w).taskEvent, (s.wait w).task, some (s.wait w).parentGen⟩) := by
       intro x
@@ -132,12 +133,7 @@ theorem St.t46_onWaitDone_M (s : St) (w e : Nat) (hst : (s.wait w).started = tru
           WaitSt.t46_wt_of_pending (s.wait w) x (by simp [WaitSt.t46_pending, hst, hflag, hto]),
           WaitSt.t46_wt_of_not _ x (by simp [WaitSt.t46_pending])]
         split <;> omega
-      | true =>
-        rw [St.t46_D_registerTask_mem (s.modWait w fun x => { x with flag := true }) _ _ x (hfl hflag),
-          St.t46_D_modWait, if_pos hw,
-          WaitSt.t46_wt_of_not (s.wait w) x (by simp [WaitSt.t46_pending, hflag]),
-          WaitSt.t46_wt_of_not _ x (by simp [WaitSt.t46_pending])]
-        omega
+      | true => rw [hfl0] at hflag; cases hflag
     split
     · split
       · split <;> t46m
